@@ -23,7 +23,7 @@ RULE = ('Parents: every entry kind and postings, parsed from generated texts who
         'posting, or the existing items use a non-default indent.')
 ASSUMPTIONS = ['with disagreeing sibling indents any sibling\'s indent is accepted (docs and code differ on first vs last)']
 SHRINK_LISTS = ('ops',)
-REQUIRED_CLASSES = ('route:map-set', 'route:raw-append', 'route:comment-append', 'route:comment-setter', 'route:from_value', 'parent:posting', 'parent:entry',
+REQUIRED_CLASSES = ('meta-view-used-before', 'parent-reindented', 'route:map-set', 'route:raw-append', 'route:comment-append', 'route:comment-setter', 'route:from_value', 'parent:posting', 'parent:entry',
                     'layout:none', 'layout:uniform', 'layout:mixed')
 
 ENTRY_KINDS = sorted(L.G.ENTRY_KINDS)
@@ -58,6 +58,17 @@ def run_case(case: dict) -> Result:
     P = ms[tgt.get('mi', 0) % len(ms)]
     is_posting = type(P).__name__ == 'Posting'
     classes.add('parent:posting' if is_posting else 'parent:entry')
+    # history before the insertion: the meta view may have been used already, and the parent's own indent / indent_by changed afterwards
+    if case.get('prime_meta') and hasattr(P, 'meta'):
+        len(P.meta)
+        list(P.raw_meta)
+        classes.add('meta-view-used-before')
+    if case.get('reindent') is not None and is_posting:
+        if case.get('reindent_raw'):
+            P.raw_indent = type(P.raw_indent).from_value(case['reindent'])
+        else:
+            P.indent = case['reindent']
+        classes.add('parent-reindented')
     if iby is not None and hasattr(P, 'indent_by'):
         P.indent_by = iby
     before = existing_indents(root)
@@ -197,7 +208,7 @@ def _build(tier: str):
         chunk = g.join_lines(lines)
         case = {'dirs': [chunk], 'target': target, 'route': route, 'indent_by': iby, 'key': g.meta_key()[1][:-1] + 'x', 'v': D.value('meta_value', g),
                 'x': blanks() if g.p(0.8) else '', 'text': D.comment_value(g), 'attr': g.pick(['leading_comment', 'trailing_comment']),
-                'on_meta': g.p(0.5), 'oi': g.n(0, 3)}
+                'on_meta': g.p(0.5), 'oi': g.n(0, 3), 'prime_meta': g.p(0.5), 'reindent': blanks() if g.p(0.4) else None, 'reindent_raw': g.p(0.3)}
         if route == 'comment-setter' and not posting and k == 0:
             case['route'] = 'map-set'
         return case
